@@ -180,6 +180,40 @@ def gen_hist_doc(rng, sects, target_sect):
     return doc
 
 
+SAME_SIZE = [[".h", ".c"], [".hh", ".hx", ".cc"], [".hxx", ".hpp", ".inc"], ["c++14", "c++17", "c++20"], ["any", "big"], ["c11", "c99"],
+             ["x", "_", "z"], ["T", "F"], [1, 2], [True, None]]
+
+
+def same_size_variant(rng, doc):
+    """a document that differs from `doc` in one leaf and is dumped to YAML text of exactly the same length (None if there
+    is no leaf with an equally long alternative)"""
+    import yaml
+    spots = []
+
+    def walk(d, path):
+        for k, v in d.items():
+            if isinstance(v, dict):
+                walk(v, path + (k,))
+            else:
+                for grp in SAME_SIZE:
+                    if any(v is x or (type(v) is type(x) and v == x) for x in grp):
+                        spots.append((path + (k,), [x for x in grp if not (type(v) is type(x) and v == x)]))
+
+    walk(doc, ())
+    rng.shuffle(spots)
+    size = len(yaml.safe_dump(doc, sort_keys=False, allow_unicode=True).encode("utf-8"))
+    for path, alts in spots:
+        for alt in alts:
+            new = copy.deepcopy(doc)
+            d = new
+            for k in path[:-1]:
+                d = d[k]
+            d[path[-1]] = alt
+            if len(yaml.safe_dump(new, sort_keys=False, allow_unicode=True).encode("utf-8")) == size:
+                return new
+    return None
+
+
 def hist_exc_kind(e):
     from nunavut.lang import UnsupportedLanguageError
     if isinstance(e, UnsupportedLanguageError):
@@ -377,9 +411,20 @@ class History:
                     for _ in range(rng.choice([1, 1, 2])):
                         p = rng.randrange(len(pool))
                         if p not in content or rng.random() < 0.8:
-                            doc = gen_hist_doc(rng, sects, tsect)
+                            doc, stat = None, None
+                            if p in content and rng.random() < 0.35:
+                                # another revision of the same length (and, half of the time, with the same time stamp):
+                                # nothing but the content tells the two revisions apart
+                                doc = same_size_variant(rng, content[p])
+                                stat = pool[p].stat()
+                            if doc is None:
+                                doc, stat = gen_hist_doc(rng, sects, tsect), None
+                            else:
+                                ctx.count("history_same_size_rewrites")
                             content[p] = doc
                             pool[p].write_text(yaml.safe_dump(doc, sort_keys=False, allow_unicode=True), encoding="utf-8")
+                            if stat is not None and rng.random() < 0.5:
+                                os.utime(pool[p], ns=(stat.st_atime_ns, stat.st_mtime_ns))
                             self._op("W/%d/%s" % (p, base.wire(doc)), "-")
                         batch.append(p)
                     for p in batch:
@@ -527,6 +572,12 @@ def compare_history(ctx, h, model_line):
             g = g[1]
             m = model_value_token(m)
         if m != g:
+            op = h.ops[i].split("/")
+            if (op[0] == "R" and op[3] in ("nm", "lv", "lo") and m.startswith("err:") and str(g).startswith("err:")
+                    and "err:noLanguage" not in (m, g) and m != "err:dead"):
+                # two languages of the map fail to construct: which one is met first is the iteration order of a set
+                ctx.count("history_map_error_order_dependent")
+                continue
             ctx.disagree("process-history", {"ops_so_far": [o[:400] for o in h.ops[:i + 1]], "op": h.ops[i][:400], "index": i}, m[:2000], str(g)[:2000])
             return
 
